@@ -139,15 +139,23 @@ where
         out.case(format!("poly ntt {} {} {} {} {}", f, set_s as u8, out_len, size, enc(&inp)), show(r));
     }
     // the limits: 2^20 accepted, 2^20+1 and 2^21 refused, set_s limited to 2^19 (zero input keeps the case cheap for the model)
-    if thorough {
-        for (size, set_s) in [(1usize << 20, false), (1 << 19, true)] {
-            let r = hp::ntt::<F>(size, &[F::one()], size, set_s);
-            out.oracle(r.is_ok(), || format!("ntt limit {} {}", size, set_s), || "maximal size refused".into());
+    let class = |r: &Result<Vec<F>, String>| match r {
+        Ok(_) => "ok".to_string(),
+        Err(e) => format!("err {}", e),
+    };
+    for (size, set_s) in [(1usize << 20, false), (1 << 19, true), (1 << 18, true), (1 << 19, false)] {
+        let r = hp::ntt::<F>(size, &[F::one()], size, set_s);
+        out.oracle(r.is_ok(), || format!("ntt limit {} {}", size, set_s), || "maximal size refused".into());
+        // the transform of the constant polynomial 1 is the all-ones vector
+        if let Ok(v) = &r {
+            out.oracle(v.len() == size && v.iter().all(|x| *x == F::one()), || format!("ntt limit {} {} values", size, set_s), || "transform of the constant 1 is not all ones".into());
         }
+        out.case(format!("poly nttclass {} {} {} {}", f, set_s as u8, size, size), class(&r));
     }
-    for (size, set_s) in [((1usize << 20) + 1, false), (1 << 21, false), (1 << 20, true)] {
+    for (size, set_s) in [((1usize << 20) + 1, false), (1 << 21, false), (1 << 20, true), ((1 << 19) + 1, true), (3 << 18, true)] {
         let r = hp::ntt::<F>(size, &[F::one()], size, set_s);
         out.oracle(r.is_err(), || format!("ntt limit {} {}", size, set_s), || "over-size accepted".into());
+        out.case(format!("poly nttclass {} {} {} {}", f, set_s as u8, size, size), class(&r));
     }
     // Lagrange-basis evaluation: at random points and exactly at every node
     for d in 0..=(if thorough { 8 } else { 6 }) {
